@@ -646,6 +646,7 @@ func (s *shardedNext) put(k [16]byte, hist []byte, mask uint8, tainted bool) {
 }
 
 type foundViol struct {
+	a    *alphabet
 	hist []byte
 	v    viol
 }
@@ -667,7 +668,8 @@ type sigRec struct {
 
 const keepPerSig = 3
 
-func (vr *violRec) consider(a *alphabet, rc *refCache, depth int, hist []byte, vs []viol) {
+func (vr *violRec) consider(a *alphabet, rc *refCache, hist []byte, vs []viol) {
+	depth := len(hist)
 	var need []viol
 	vr.mu.Lock()
 	for _, v := range vs {
@@ -693,7 +695,7 @@ func (vr *violRec) consider(a *alphabet, rc *refCache, depth int, hist []byte, v
 				break
 			}
 		}
-		fv := foundViol{hist: append([]byte(nil), hist...)}
+		fv := foundViol{a: a, hist: append([]byte(nil), hist...)}
 		sig := v.Sig
 		if conf != nil {
 			fv.v = *conf
@@ -717,7 +719,7 @@ func (vr *violRec) consider(a *alphabet, rc *refCache, depth int, hist []byte, v
 	}
 }
 
-func (vr *violRec) report(c *fw.Ctx, a *alphabet) {
+func (vr *violRec) report(c *fw.Ctx) {
 	var sigs []string
 	for s := range vr.sigs {
 		sigs = append(sigs, s)
@@ -727,20 +729,71 @@ func (vr *violRec) report(c *fw.Ctx, a *alphabet) {
 		c.Outcome("violation:" + s)
 		c.Count("violations["+s+"]", vr.n[s])
 		for _, f := range vr.sigs[s].top {
-			c.Violation(f.v.Sig, f.v.Part, fmt.Sprintf("after history [%s]: %s", histString(a, f.hist), f.v.Msg), mkCase(a, f.hist))
+			c.Violation(f.v.Sig, f.v.Part, fmt.Sprintf("after history [%s]: %s", histString(f.a, f.hist), f.v.Msg), mkCase(f.a, f.hist))
 		}
 	}
 }
 
-func tierSetup(thorough bool) (*alphabet, int) {
-	if thorough {
-		return newAlphabet(keysThorough, []int{0, 1, 2, 3, 4, 5}), envDepth(7)
-	}
-	return newAlphabet(keysQuick, []int{0, 1, 2, 3, 4, 5}), envDepth(5)
+// phase = one exhaustive search: all histories seed.h with |h| <= depth over alphabet a.
+type phase struct {
+	name  string
+	a     *alphabet
+	seed  []byte
+	depth int
 }
 
-func envDepth(def int) int {
-	if s := os.Getenv("C02_DEPTH"); s != "" {
+var allVals = []int{0, 1, 2, 3, 4, 5}
+
+// seedHist: every key of the universe written with the given value indices (cyclic),
+// followed by a representation suffix.
+func seedHist(a *alphabet, vals []int, suffix ...opKind) []byte {
+	var h []byte
+	find := func(want op) byte {
+		for i, o := range a.ops {
+			if o == want {
+				return byte(i)
+			}
+		}
+		panic("seed op outside the alphabet")
+	}
+	for k := range a.keys {
+		h = append(h, find(op{opUpdate, k, vals[k%len(vals)]}))
+	}
+	for _, kd := range suffix {
+		h = append(h, find(op{Kind: kd}))
+	}
+	return h
+}
+
+func phases(thorough bool) []phase {
+	d := envDepth
+	if !thorough {
+		a := newAlphabet(keysQuick, allVals)
+		return []phase{
+			{"empty/4keys", a, nil, d("C02_DEPTH", 5)},
+			// populated tries in different representations, then every history of 3 more operations
+			{"full-1B-dirty/4keys", a, seedHist(a, []int{1}), d("C02_SEED_DEPTH", 3)},
+			{"full-32B-unloaded/4keys", a, seedHist(a, []int{4}, opCommitDisk, opCommitDisk), d("C02_SEED_DEPTH", 3)},
+			{"full-mixed-reopened/4keys", a, seedHist(a, []int{2, 1, 5, 3}, opCommitDisk, opReopen), d("C02_SEED_DEPTH", 3)},
+		}
+	}
+	a4 := newAlphabet(keysQuick, allVals)
+	a8 := newAlphabet(keysThorough, allVals)
+	sd := d("C02_SEED_DEPTH", 3)
+	return []phase{
+		{"empty/8keys", a8, nil, d("C02_DEPTH8", 5)},
+		{"full-1B-dirty/8keys", a8, seedHist(a8, []int{1}), sd},
+		{"full-1B-unloaded/8keys", a8, seedHist(a8, []int{1}, opCommitDisk, opCommitDisk), sd},
+		{"full-32B-unloaded/8keys", a8, seedHist(a8, []int{4}, opCommitDisk, opCommitDisk), sd},
+		{"full-mixed-dirty/8keys", a8, seedHist(a8, []int{2, 1, 5, 3, 4}), sd},
+		{"full-mixed-memcommitted/8keys", a8, seedHist(a8, []int{2, 1, 5, 3, 4}, opCommitMem, opCommitMem), sd},
+		{"full-mixed-reopened/8keys", a8, seedHist(a8, []int{2, 1, 5, 3, 4}, opCommitDisk, opReopen), sd},
+		{"empty/4keys", a4, nil, d("C02_DEPTH", 7)},
+	}
+}
+
+func envDepth(name string, def int) int {
+	if s := os.Getenv(name); s != "" {
 		var d int
 		if _, err := fmt.Sscanf(s, "%d", &d); err == nil && d > 0 {
 			return d
@@ -771,25 +824,58 @@ func run(c *fw.Ctx) {
 		}
 	}
 	debug.SetGCPercent(400)
-	a, depth := tierSetup(c.Thorough())
-	rc := newRefCache(a.keys)
 	ngo := runtime.NumCPU()
 	if c.NShards > 1 {
 		ngo = (ngo + c.NShards - 1) / c.NShards
 	}
-	c.Note("alphabet_ops", len(a.ops))
-	c.Note("keys", len(a.keys))
-	c.Note("depth_bound", depth)
 	c.Note("goroutines", ngo)
+	vr := &violRec{sigs: map[string]*sigRec{}, n: map[string]int64{}}
+	rcs := map[*alphabet]*refCache{}
+	var bounds []string
+	for _, ph := range phases(c.Thorough()) {
+		rc := rcs[ph.a]
+		if rc == nil {
+			rc = newRefCache(ph.a.keys)
+			rcs[ph.a] = rc
+		}
+		done := bfs(c, ph, rc, vr, ngo)
+		bounds = append(bounds, fmt.Sprintf("%s: %d ops, seed length %d, depth %d of %d complete", ph.name, len(ph.a.ops), len(ph.seed), done, ph.depth))
+		if done < ph.depth {
+			break
+		}
+	}
+	c.Note("bounds", bounds)
+	vr.report(c)
+	c.Outcome("held")
+	// outcome classes: the canonical shapes that occurred
+	for _, rc := range rcs {
+		for i := range rc.tab {
+			if ri := rc.tab[i].Load(); ri != nil {
+				c.Outcome(fmt.Sprintf("shape:branches=%d,shorts=%d,embedded=%v", ri.branches, len(ri.shorts), ri.embedded))
+			}
+		}
+	}
+}
 
+// bfs runs one phase and returns the depth that was completed.
+func bfs(c *fw.Ctx, ph phase, rc *refCache, vr *violRec, ngo int) int {
+	a, depth := ph.a, ph.depth
+	// the seed is a history like any other: every prefix of it is checked first
+	for n := 1; n <= len(ph.seed); n++ {
+		r := execute(a, rc, ph.seed[:n], false)
+		c.Trace(1)
+		c.Eval(1)
+		if len(r.viols) > 0 {
+			vr.consider(a, rc, ph.seed[:n], r.viols)
+		}
+	}
 	visited := newSet()
-	root := execute(a, rc, nil, false)
+	root := execute(a, rc, ph.seed, false)
 	visited.add(root.key)
 	c.State(1)
-	frontier := []*stateRec{{hist: nil}}
+	frontier := []*stateRec{{hist: append([]byte(nil), ph.seed...), mask: root.mask}}
 	var sampleN int32
 	completed := 0
-	vr := &violRec{sigs: map[string]*sigRec{}, n: map[string]int64{}}
 
 	for d := 1; d <= depth && len(frontier) > 0; d++ {
 		next := newNext()
@@ -806,7 +892,7 @@ func run(c *fw.Ctx) {
 			wg.Add(1)
 			go func() {
 				defer wg.Done()
-				hist := make([]byte, 0, depth)
+				hist := make([]byte, 0, len(ph.seed)+depth)
 				for {
 					i := atomic.AddInt64(&idx, 1)
 					if i >= int64(len(frontier)) {
@@ -828,14 +914,14 @@ func run(c *fw.Ctx) {
 						hist = append(hist, byte(oi))
 						r := execute(a, rc, hist, false)
 						atomic.AddInt64(&nTrans, 1)
-						mask := s.mask | r.mask
+						mask := r.mask // accumulated over the whole history by the replay
 						if r.ct.live() >= 2 && mask != 0 {
 							atomic.AddInt64(&nNontriv, 1)
 						}
 						tainted := false
 						if len(r.viols) > 0 {
 							atomic.AddInt64(&nViolCases, 1)
-							vr.consider(a, rc, d, hist, r.viols)
+							vr.consider(a, rc, hist, r.viols)
 							for _, v := range r.viols {
 								// a wrong iteration *order* is a read-only deviation; everything else means
 								// implementation and model have diverged, successors would only repeat it
@@ -856,9 +942,9 @@ func run(c *fw.Ctx) {
 						} else {
 							next.put(r.key, hist, mask, tainted)
 						}
-						if r.ct.live() >= 2 && mask != 0 && atomic.AddInt32(&sampleN, 1) <= 2 {
+						if d >= 3 && r.ct.live() >= 2 && mask&(fCollapse|fMerge) != 0 && atomic.AddInt32(&sampleN, 1) <= 1 {
 							rr := execute(a, rc, hist, true)
-							c.Sample(map[string]interface{}{"history": histString(a, hist), "final_dump": rr.dump, "features": maskNames(mask)})
+							c.Sample(map[string]interface{}{"phase": ph.name, "history": histString(a, hist), "final_dump": rr.dump, "features": maskNames(mask)})
 						}
 					}
 				}
@@ -872,12 +958,13 @@ func run(c *fw.Ctx) {
 		c.Count("violating_histories", nViolCases)
 
 		if expired != 0 {
-			c.Cap(fmt.Sprintf("time cap during depth %d of %d (depth %d complete)", d, depth, completed))
+			c.Cap(fmt.Sprintf("time cap in phase %s during depth %d of %d (depth %d complete)", ph.name, d, depth, completed))
 			break
 		}
 		completed = d
 		if lastLevel {
 			c.State(nNewLast)
+			c.Count(fmt.Sprintf("new_states[%s]depth_%d", ph.name, d), nNewLast)
 			break
 		}
 		var nf []*stateRec
@@ -895,19 +982,11 @@ func run(c *fw.Ctx) {
 		}
 		sort.Slice(nf, func(i, j int) bool { return bytes.Compare(nf[i].hist, nf[j].hist) < 0 })
 		c.State(nstates)
-		c.Count(fmt.Sprintf("new_states_depth_%d", d), nstates)
+		c.Count(fmt.Sprintf("new_states[%s]depth_%d", ph.name, d), nstates)
 		c.Count("diverged_states_not_expanded", ntainted)
 		frontier = nf
 	}
-	vr.report(c, a)
-	c.Note("depth_completed", completed)
-	c.Outcome("held")
-	// outcome classes: the feature combinations that occurred
-	for i := range rc.tab {
-		if ri := rc.tab[i].Load(); ri != nil {
-			c.Outcome(fmt.Sprintf("shape:branches=%d,embedded=%v", ri.branches, ri.embedded))
-		}
-	}
+	return completed
 }
 
 func maskNames(m uint8) []string {
